@@ -3,8 +3,10 @@ C11 — executable model: interpreter of the guards extracted from the current s
 kernel preconditions `Pre_K`, and the seeding loop of `slic` (the one loop whose bound depends on a parameter that
 the repaired wrapper now guards).
 
-Driver protocol:  `c11 kind=guards fn=<short name> <param>=<kind,ndim,dcls,flags,ival,shape…> …`
+Driver protocol:  `c11 kind=guards fn=<short name> <param>=<kind,ndim,dcls,flags,ival,shape…> [<param>.x=<tnum>,<nnz>] …`
                   → `verdict=accept|reject|unknown-fn atom=<index of the first rejecting atom or -1> n=<number of atoms>`
+                  `c11 kind=nguards fn=<_module.name> <C variable>=<descriptor> [<C variable>.x=<tnum>,<nnz>] …`
+                  → the same for the guards of the native entry point, plus `action=<code of the rejecting atom>`
                   `c11 kind=seeds s=<S> n=<N>` → `seeds=<positions> count=<k>`  (transliteration of `for (y = S/2; y < N; y += S)`)
 -/
 import Mahotas.Model.C11Base
@@ -16,7 +18,21 @@ def descOfInts : List Int → Desc
   | k :: nd :: dc :: fl :: iv :: sh => { kind := k.toNat, ndim := nd.toNat, dcls := dc.toNat, flags := fl.toNat, ival := iv, shape := sh.map Int.toNat }
   | _ => {}
 
-def envOfArgs (a : Args) : Env := fun name => if a.has name then descOfInts (a.ints name) else {}
+/-- `<param>=<kind,ndim,dcls,flags,ival,shape…>` and optionally `<param>.x=<tnum>,<nnz>` -/
+def envOfArgs (a : Args) : Env := fun name =>
+  if a.has name then
+    let d := descOfInts (a.ints name)
+    match a.ints (name ++ ".x") with
+    | t :: z :: _ => { d with tnum := t.toNat, nnz := z.toNat }
+    | [t] => { d with tnum := t.toNat }
+    | [] => d
+  else {}
+
+def nativeGuardsOf (full : String) : Option (List NAtom) :=
+  (Generated.nativeGuardTable.find? (fun e => e.1 == full)).map (·.2.2)
+
+def actionsOf (key : String) : List Nat :=
+  ((Generated.guardActionTable.find? (fun e => e.1 == key)).map (·.2.2)).getD []
 
 def guardsOf (short : String) : Option (List Atom) :=
   (Generated.wrapperGuards.find? (fun e => e.2.1 == short)).map (·.2.2)
@@ -55,6 +71,14 @@ def handle (a : Args) : String :=
       match firstReject gs env with
       | some i => s!"verdict=reject atom={i} n={gs.length}"
       | none => s!"verdict=accept atom=-1 n={gs.length}"
+  | "nguards" =>
+    match nativeGuardsOf (a.str "fn") with
+    | none => "verdict=unknown-fn atom=-1 n=0 action=-1"
+    | some gs =>
+      let env := envOfArgs a
+      match nfirstReject gs env with
+      | some i => s!"verdict=reject atom={i} n={gs.length} action={(actionsOf ("n:" ++ a.str "fn")).getD i 9}"
+      | none => s!"verdict=accept atom=-1 n={gs.length} action=-1"
   | "seeds" =>
     let s := seeds (a.nat "s") (a.nat "n")
     s!"seeds={showNats s} count={s.length}"
